@@ -7,17 +7,25 @@ ENTRY = {
         "quick": T(16, 150), "thorough": T(16, 600),
         "rule": "one execution = one (geometry, stream start offset, chunking of the byte stream into driver reads, external-trigger pattern, mix change, lost-byte gap) through the real "
                 "LanceroSource.PrepareChannels, PrepareRun, StartRun, launchLanceroReader, getNextBlock, ConfigureMixFraction and distributeData with a scripted card; every output sample is matched "
-                "to a frame of the card's stream (channel order, err/fb pairing), feedback delay/flag clearing/mix/saturation, external-trigger counts, re-alignment, loss reporting and "
+                "to a frame of the card's stream (channel order, err/fb pairing), feedback delay/flag clearing/mix/saturation (per sample: the previous delivered feedback with its flag bits cleared + the fraction "
+                "in force for THIS channel x the signed error of the same physical sample, saturated at 0 and 65535; the fraction in force is that of the last served request naming the channel, 0 if none), external-trigger counts, re-alignment, loss reporting and "
                 "frame-number monotonicity are checked; non-trivial = data was delivered in at least two blocks. "
+                "A mix change is one or two ConfigureMixFraction requests, each naming its own feedback channels with a fraction of its own per channel (the same fraction on all, a distinct fraction on "
+                "every feedback channel incl. negative and saturating ones, a fraction on a single feedback channel - every channel -, a later request that changes one channel and switches another off); "
+                "the card runs in lock-step (one driver read per block) until the last request has been served, so every request takes effect between two known blocks; the chunk family makes the "
+                "distinct-fraction request before the first block and then runs through its chunkings freely. "
                 "Restart family: one execution = two runs of the SAME LanceroSource/LanceroDevice/card objects (first run: geometry, start offset, no mix / mix on all feedback channels / "
-                "a saturating mix on one channel; second run: the same or any other geometry, start offset, no mix / mix on all / mix on one channel), each started the way Start does it - the real "
+                "a saturating mix on one channel / a distinct fraction on every feedback channel; second run: the same or any other geometry, start offset, no mix / mix on all / mix on one channel / "
+                "distinct saturating fractions on every feedback channel), each started the way Start does it - the real "
                 "Configure (rows, line period, NSAMP from a cringeGlobals file), the real Sample with sampleCard and updateChanOrderMap on a scripted sampling session, PrepareChannels, PrepareRun, "
                 "StartRun - and ended the way a stopped run ends (abortSelf closed, reader closes its channel, stop(), nextBlock closed); each run is held to the full oracle of a fresh source "
                 "(feedback starts from 0, mix only if set in this run, external-trigger counts), so nothing the first run left in the source may show in the second",
         "assumptions": ["outside the restart family sampleCard is bypassed: the geometry is written into the device and the per-start tables are built by the real updateChanOrderMap on a fresh source",
                         "restart family: sampleCard measures its 200 ms on the card's time stamps, not on the wall clock; the scripted card's time stamps run at 20 frames/s there, so 200 ms are 4 frames (two sampling chunkings, one of which makes the frame-bit search fail once); NSAMP = 1; no lost bytes",
                         "restart family: the external-trigger flag is low at the end of the first run and at the start of the second (the source remembers the last flag state across runs; whether a flag found high at the start of a run is a rising edge is not decided by the property)", "the 50 ms read period is made settable (0.1 ms); the loop is unchanged",
-                        "at least two rows (with one row every word carries the frame bit and frame boundaries do not exist)", "one card (the reader panics for more: 'not yet implemented')", "a loss of a whole number of frames is not observable in the data and is excluded",
+                        "at least two rows (with one row every word carries the frame bit and frame boundaries do not exist)", "one card (the reader panics for more: 'not yet implemented')",
+                        "mix requests are made while the card holds back new data (lock-step), so the sample from which a request applies is known; a request racing with arriving data is not explored here (C17 runs one under the scheduler)",
+                        "mix fractions: {0.5, -1.5, 400} on all, 0.25(k+1) and 350(k+1) with alternating sign on feedback channel number k, single channels, -2.5/0 in a second request; NSAMP = 1; the reply of ConfigureMixFraction is not part of the oracle (the property speaks about the data)", "a loss of a whole number of frames is not observable in the data and is excluded",
                         "lost bytes are the first bytes of a later read (ring overflow between reads)",
                         "after a loss the frame number of the block that notices it is a time-based estimate: external-trigger counts are then only checked for row and order"],
     },
